@@ -183,7 +183,7 @@ func copyHeader(h map[string]interface{}) map[string]interface{} {
 // ---- deterministic tamper sweep -------------------------------------------------------------------------------
 
 func TestTamperSweep(t *testing.T) {
-	ev.Rule(chkSweep, "deterministic sweep: for each of the 5 key types x builder {harness assembler, library signutil+ecsigner/edsigner} x header set {alg; alg+kid; alg+kid+extra string+b64:true; alg+b64:false (assembler only)} x payload {JSON 40 B, binary 1 B, binary 200 B}: the genuine JWS must verify; then every byte of the decoded payload x masks {0x01, 0x80}, payload truncated/extended, every value-level header change (alg replaced, kid changed/added/removed, member added/removed, b64 toggled), every byte of the signature x masks {0x01, 0x80}, every truncation length, one-byte extensions, empty signature, r/s halves swapped, and the signature paired with every foreign key (same type: 3 keys, other types: 4 keys); oracle: accept exactly the genuine pairing; non-trivial = every alteration")
+	ev.Rule(chkSweep, "deterministic sweep: for each of the 5 key types x builder {harness assembler, library signutil+ecsigner/edsigner} x header set {alg; alg+kid; alg+kid+extra string+b64:true; alg+b64:false (assembler only)} x payload {JSON 40 B, binary 1 B, binary 200 B}: the genuine JWS must verify; then every byte of the decoded payload x masks {0x01, 0x80}, payload truncated/extended, every value-level header change (alg replaced, kid changed/added/removed, member added/removed, b64 toggled), every byte of the signature x masks {0x01, 0x80}, every truncation length, every single-byte deletion, one-byte extensions, empty signature, r/s halves swapped, and the signature paired with every foreign key (same type: 3 keys, other types: 4 keys); oracle: accept exactly the genuine pairing; non-trivial = every alteration")
 	payloads := [][]byte{[]byte(`{"deltaHash":"EiAbc","updateKey":{"kty":"EC"}}`), {0x7f}, make([]byte, 200)}
 	for i := range payloads[2] {
 		payloads[2][i] = byte(i*7 + 3)
@@ -252,6 +252,10 @@ func TestTamperSweep(t *testing.T) {
 							cls = "signature-empty"
 						}
 						rej(g.with(g.header, payload, g.sig[:n]), fmt.Sprintf("signature truncated to %d bytes", n), cls)
+					}
+					for i := range g.sig {
+						d := append(append([]byte{}, g.sig[:i]...), g.sig[i+1:]...)
+						rej(g.with(g.header, payload, d), fmt.Sprintf("signature byte %d deleted", i), "signature-byte-deleted")
 					}
 					rej(g.with(g.header, payload, append(append([]byte{}, g.sig...), 0)), "signature extended by a zero byte", "signature-extended")
 					rej(g.with(g.header, payload, append([]byte{0}, g.sig...)), "signature prefixed by a zero byte", "signature-extended")
@@ -393,6 +397,58 @@ func TestRapidAlterations(t *testing.T) {
 		}
 		judge(t, chkRapid, c, "class:"+alt, "keytype:"+kt.String())
 	})
+}
+
+// ---- signatures whose r or s starts with zero bytes -------------------------------------------------------------
+
+// TestShortScalars looks for genuine ECDSA signatures whose r or s has a leading zero byte (every second P-521
+// signature, one in 256 elsewhere) and requires that the fixed-width form verifies while every shortened
+// spelling of the same scalars (leading zero bytes dropped) is rejected as wrongly sized.
+func TestShortScalars(t *testing.T) {
+	ev.Rule(chkSweep, "short scalars: for each EC key type, genuine signatures over payloads {\"n\":i} are searched (<= 4000) for r and for s starting with a zero byte; the fixed-width signature must verify; with the leading zero byte of r, of s, or of both dropped (signature 1-2 bytes short) it must be rejected; non-trivial = every alteration")
+	item := 0
+	for _, kt := range keys.AllTypes {
+		if kt == keys.Ed25519 {
+			continue
+		}
+		item++
+		if !ev.Mine(item) {
+			continue
+		}
+		k := keys.Get(kt, "c09", 1)
+		n := kt.CoordSize()
+		foundR, foundS := 0, 0
+		for i := 0; i < 4000 && (foundR < 2 || foundS < 2); i++ {
+			payload := []byte(fmt.Sprintf(`{"n":%d}`, i))
+			g, err := build(k, "asm", "", nil, payload)
+			if err != nil {
+				t.Fatalf("cannot build genuine JWS: %v", err)
+			}
+			rz, sz := g.sig[0] == 0, g.sig[n] == 0
+			if !(rz && foundR < 2) && !(sz && foundS < 2) {
+				continue
+			}
+			tag := fmt.Sprintf("%s/n=%d", kt, i)
+			judge(t, chkSweep, &Case{Compact: g.compact, Key: jwkOf(k), Accept: true, Note: "genuine with a leading-zero scalar " + tag}, "class:genuine-leading-zero-scalar", "keytype:"+kt.String())
+			rej := func(sig []byte, note string) {
+				judge(t, chkSweep, &Case{Compact: g.with(g.header, payload, sig), Key: jwkOf(k), Accept: false, Note: note + ": " + tag}, "class:short-scalar", "keytype:"+kt.String())
+			}
+			if rz {
+				foundR++
+				rej(g.sig[1:], "leading zero byte of r dropped")
+			}
+			if sz {
+				foundS++
+				rej(append(append([]byte{}, g.sig[:n]...), g.sig[n+1:]...), "leading zero byte of s dropped")
+			}
+			if rz && sz {
+				rej(append(append([]byte{}, g.sig[1:n]...), g.sig[n+1:]...), "leading zero bytes of r and s dropped")
+			}
+		}
+		if foundR == 0 || foundS == 0 {
+			t.Fatalf("harness: no leading-zero r/s signature found for %s in 4000 payloads", kt)
+		}
+	}
 }
 
 // ---- malformed JWKs with a genuine signature ---------------------------------------------------------------
